@@ -260,3 +260,177 @@ Proof.
   - destruct (lookup outs ref k) as [ev|]; simpl; [|exact I].
     destruct (remove_series_one a ev) as [r Hr]. destruct (remove_series a ev); simpl in *. rewrite Hr. reflexivity.
 Qed.
+(* ========================================================================================== *)
+(* 3. read conversion is exact                                                                 *)
+
+(* zone hypothesis: converting an instant to the wall clock (with its fold) and back is the identity *)
+Definition zone_rt (z : zone) : Prop := forall t, wall_to_utc z (utc_to_wall z t) (fold_of z t) = t.
+
+Lemma utc_zone_rt : zone_rt utc_zone.
+Proof. intro t. unfold wall_to_utc, utc_to_wall, wall_offset, offset_at, utc_zone; simpl. lia. Qed.
+
+(* a row agrees with the backend's truth: an all-day row's instants are the local midnights of
+   its dates in the calendar's zone, a timed row presents its instants *)
+Definition row_wf (b : bstate) (w : row) : Prop :=
+  if s_allday (w_ev w)
+  then w_s w = midnight (bs_zone b) (w_k0 w) /\ w_e w = option_map (midnight (bs_zone b)) (w_k1 w)
+  else w_s w = w_k0 w /\ w_e w = w_k1 w.
+
+Definition pres_ok (b : bstate) (st : sev) : Prop :=
+  match s_pres st with
+  | KFixed => True
+  | KZone => zone_rt (ev_zone b st)
+  | KNaive => zone_rt (tz_or_utc (s_tz st))
+  end.
+
+Lemma present_t_ts b st t zf :
+  pres_ok b st -> (s_pres st = KNaive -> zf = tz_or_utc (s_tz st)) ->
+  pres_ts (present_t b st t) zf = t.
+Proof.
+  unfold pres_ok, present_t. destruct (s_pres st); intros Hz Hn; simpl.
+  - apply Hz.
+  - lia.
+  - rewrite (Hn eq_refl). apply Hz.
+Qed.
+
+Theorem read_span_exact (a a' : astate) (w : row) (ev : aev) :
+  a_tz a = Some (Some (bs_zone (a_b a))) ->
+  row_wf (a_b a) w ->
+  (s_allday (w_ev w) = false -> pres_ok (a_b a) (w_ev w)) ->
+  (s_allday (w_ev w) = false -> s_pres (w_ev w) = KNaive -> is_all_day_event (present (a_b a) w) = false) ->
+  convert a (present (a_b a) w) = (a', Some (Some ev)) ->
+  e_s ev = w_s w /\ Some (e_e ev) = w_e w /\ Some (e_id ev) = w_id w /\ Some (e_sum ev) = s_sum (w_ev w) /\
+  e_rid ev = w_rid w /\ e_desc ev = s_desc (w_ev w) /\
+  (s_allday (w_ev w) = true -> e_allday ev = true).
+Proof.
+  intros Htz Hwf Hp Hn H.
+  set (b := a_b a) in *. set (e := present b w) in *.
+  assert (Eid : b_id e = w_id w) by reflexivity.
+  assert (Esum : b_sum e = s_sum (w_ev w)) by reflexivity.
+  assert (Etz : b_tz e = s_tz (w_ev w)) by reflexivity.
+  assert (Erid : b_rid e = w_rid w) by reflexivity.
+  assert (Edesc : b_desc e = s_desc (w_ev w)) by reflexivity.
+  assert (Etime : b_time e = if s_allday (w_ev w) then BDate (w_k0 w) (w_k1 w)
+                             else BTimed (present_t b (w_ev w) (w_k0 w)) (option_map (present_t b (w_ev w)) (w_k1 w)))
+    by reflexivity.
+  unfold convert in H. rewrite Eid, Esum in H.
+  destruct (w_id w) as [id|]; [|discriminate].
+  destruct (s_sum (w_ev w)) as [sm|]; [|discriminate].
+  destruct (has_end e) eqn:Hend; [|discriminate].
+  unfold row_wf in Hwf. fold b in Hwf.
+  destruct (s_allday (w_ev w)) eqn:Had.
+  - (* all-day *)
+    assert (Had' : is_all_day_event e = true).
+    { unfold is_all_day_event. rewrite Etime. unfold has_end in Hend. rewrite Etime in Hend.
+      destruct (w_k1 w); [reflexivity|discriminate]. }
+    rewrite Had' in H. unfold cal_tz in H. rewrite Htz in H. fold b in H. rewrite Etime in H.
+    unfold has_end in Hend. rewrite Etime in Hend.
+    destruct (w_k1 w) as [k1|]; [|discriminate].
+    injection H as _ Hev. subst ev. cbn. destruct Hwf as [Hs He]. rewrite Hs, He.
+    repeat split; reflexivity.
+  - (* timed *)
+    specialize (Hp eq_refl). specialize (Hn eq_refl).
+    unfold has_end in Hend. rewrite Etime in Hend.
+    destruct (w_k1 w) as [k1|] eqn:Hk1; [|discriminate].
+    destruct Hwf as [Hs He].
+    destruct (is_all_day_event e) eqn:Hade.
+    + unfold cal_tz in H. rewrite Htz in H. fold b in H. rewrite Etime in H. cbn [option_map] in H.
+      injection H as _ Hev. subst ev. cbn.
+      assert (Hz : s_pres (w_ev w) = KNaive -> bs_zone b = tz_or_utc (s_tz (w_ev w))).
+      { intro Hk. specialize (Hn Hk). rewrite Hn in Hade. discriminate. }
+      rewrite !(present_t_ts b (w_ev w) _ (bs_zone b) Hp Hz).
+      rewrite Hs, He. repeat split; try reflexivity; try (intro; discriminate).
+    + rewrite Etime in H. cbn [option_map] in H.
+      injection H as _ Hev. subst ev. cbn.
+      assert (Hz : s_pres (w_ev w) = KNaive -> tz_or_utc (b_tz e) = tz_or_utc (s_tz (w_ev w))).
+      { intros _. rewrite Etz. reflexivity. }
+      rewrite !(present_t_ts b (w_ev w) _ (tz_or_utc (b_tz e)) Hp Hz).
+      rewrite Hs, He. repeat split; try reflexivity; try (intro; discriminate).
+Qed.
+
+(* ========================================================================================== *)
+(* 4. an event added through the adapter reads back with the same span                         *)
+
+(* t is not the repeated half of an ambiguous wall-clock time of the zone (fold = 0) *)
+Definition unfolded (z : zone) (t : Z) : Prop := wall_to_utc z (utc_to_wall z t) false = t.
+
+Lemma midnight_local_date z t :
+  utc_to_wall z t mod DAY = 0 -> unfolded z t -> midnight z (local_date (Some z) t) = t.
+Proof.
+  unfold midnight, local_date, tz_or_utc, unfolded. intros Hm Hu.
+  replace (utc_to_wall z t / DAY * DAY) with (utc_to_wall z t); [exact Hu|].
+  pose proof (Z_div_mod_eq_full (utc_to_wall z t) DAY) as Hd. unfold DAY in *. lia.
+Qed.
+
+Theorem add_then_read (a a1 : astate) (w : wev) (id : N) (ad : bool) (s e : Z) :
+  a_tz a = Some (Some (bs_zone (a_b a))) ->
+  add_interval a w = (a1, [(true, Some (EId id, s, e, ad))]) ->
+  (ad = true ->
+   let z := bs_zone (a_b a) in
+   utc_to_wall z (v_s w) mod DAY = 0 /\ utc_to_wall z (v_e w) mod DAY = 0 /\
+   unfolded z (v_s w) /\ unfolded z (v_e w)) ->
+  s = v_s w /\ e = v_e w /\
+  exists st r,
+    In st (bs_store (a_b a1)) /\ rows_of_ev (a_b a1) None None st = [r] /\
+    w_id r = Some (EId id) /\ w_s r = v_s w /\ w_e r = Some (v_e w) /\
+    forall a2 ev, convert a1 (present (a_b a1) r) = (a2, Some (Some ev)) ->
+                  e_s ev = v_s w /\ e_e ev = v_e w /\ e_id ev = EId id.
+Proof.
+  intros Htz H Hall. unfold add_interval, cal_tz in H. rewrite Htz in H.
+  set (z := bs_zone (a_b a)) in *.
+  set (q := prepare (Some z) w) in *.
+  destruct (tick (a_b a)) as [b2 ok] eqn:Htick. destruct ok; [|discriminate].
+  assert (Hz2 : bs_zone b2 = z) by (unfold tick in Htick; injection Htick as <- _; reflexivity).
+  unfold b_store in H.
+  destruct (if q_allday q then q_e q <=? q_s q else q_e q <? q_s q); [discriminate|].
+  injection H as <- <- <- <- <-.
+  split; [reflexivity|]. split; [reflexivity|].
+  set (st := mkSev (Some (bs_next b2)) (q_sum q) (q_desc q) (q_tz q) (q_rem q) false (q_allday q) (q_s q)
+                   (Some (q_e q)) KZone (q_rec q)).
+  set (b3 := mkBS (bs_zone b2) (bs_store b2 ++ [st]) (N.succ (bs_next b2)) (bs_calls b2) (bs_fail b2)).
+  assert (Hrec : q_rec q = None) by (unfold q, prepare; destruct (match v_allday w with Some x => x | None => _ end); reflexivity).
+  assert (Hspan : span_of b3 st = (v_s w, Some (v_e w))).
+  { unfold span_of. cbn [s_allday s_s s_e st bs_zone b3 option_map]. rewrite Hz2.
+    unfold q, prepare in *.
+    destruct (match v_allday w with Some x => x | None => infer_all_day (v_s w) (v_e w) (Some z) end) eqn:Had;
+      cbn [q_allday q_s q_e] in *.
+    - destruct (Hall eq_refl) as (M1 & M2 & U1 & U2).
+      rewrite (midnight_local_date z _ M1 U1), (midnight_local_date z _ M2 U2). reflexivity.
+    - reflexivity. }
+  set (r := mkRow st (Some (EId (bs_next b2))) None (v_s w) (Some (v_e w)) (s_s st) (s_e st)).
+  exists st, r. cbn [a_b with_b].
+  assert (Hrows : rows_of_ev b3 None None st = [r]).
+  { unfold rows_of_ev. cbn [s_rec st]. rewrite Hrec, Hspan. reflexivity. }
+  split; [cbn; apply in_or_app; right; left; reflexivity|].
+  split; [exact Hrows|]. split; [reflexivity|]. split; [reflexivity|]. split; [reflexivity|].
+  intros a2 ev Hc.
+  assert (Hwf : row_wf b3 r).
+  { unfold row_wf. cbn [w_ev r w_s w_e w_k0 w_k1].
+    unfold span_of in Hspan. destruct (s_allday st); injection Hspan as <- <-; split; reflexivity. }
+  pose proof (read_span_exact (with_b a b3) a2 r ev) as R. cbn [a_b with_b a_tz] in R.
+  destruct R as (R1 & R2 & R3 & _).
+  - rewrite Htz. cbn. rewrite Hz2. reflexivity.
+  - exact Hwf.
+  - intro Hf. unfold pres_ok. cbn [w_ev r s_pres st].
+    (* a timed event is written with timezone "UTC" *)
+    assert (Htzq : q_tz q = Some utc_zone).
+    { cbn [s_allday st w_ev r] in Hf. unfold q, prepare in *.
+      destruct (match v_allday w with Some x => x | None => _ end); [discriminate Hf|reflexivity]. }
+    unfold ev_zone. cbn [s_tz st]. rewrite Htzq. apply utc_zone_rt.
+  - intros _ Hk. discriminate Hk.
+  - exact Hc.
+  - cbn [w_s w_e w_id r] in *. injection R2 as R2. injection R3 as R3. auto.
+Qed.
+
+Corollary read_all_day_midnights (a a' : astate) (w : row) (ev : aev) (d1 : Z) :
+  a_tz a = Some (Some (bs_zone (a_b a))) -> row_wf (a_b a) w ->
+  s_allday (w_ev w) = true -> w_k1 w = Some d1 ->
+  convert a (present (a_b a) w) = (a', Some (Some ev)) ->
+  e_s ev = wall_to_utc (bs_zone (a_b a)) (w_k0 w * DAY) false /\
+  e_e ev = wall_to_utc (bs_zone (a_b a)) (d1 * DAY) false.
+Proof.
+  intros Htz Hwf Had Hk H.
+  destruct (read_span_exact a a' w ev Htz Hwf) as (R1 & R2 & _); try (rewrite Had; intros; discriminate); [exact H|].
+  unfold row_wf in Hwf. rewrite Had in Hwf. destruct Hwf as [Hs He]. rewrite Hk in He. cbn in He.
+  rewrite He in R2. injection R2 as R2. rewrite R1, R2, Hs. split; reflexivity.
+Qed.
